@@ -226,6 +226,10 @@ func failureViolations(res *Result, panicProp, deadlockProp string) {
 			res.Viol = append(res.Viol, Violation{Prop: panicProp, Rule: "no-panic", Sig: "no-panic/" + panicSig(f), Msg: fmt.Sprintf("task %s panicked: %s\n%s", f.Task, f.Msg, trimStack(f.Stack))})
 		case "self-deadlock":
 			res.Viol = append(res.Viol, Violation{Prop: deadlockProp, Rule: "no-self-deadlock", Sig: "no-self-deadlock/" + deadlockSig(f), Msg: fmt.Sprintf("task %s: %s\n%s", f.Task, f.Msg, trimStack(f.Stack))})
+			if strings.Contains(f.Stack, "socket).Close(") || strings.Contains(f.Stack, "socket).closeTransport(") {
+				// a Close call that waits for a lock its own goroutine holds never closes the session (C12)
+				res.Viol = append(res.Viol, Violation{Prop: "C12", Rule: "close-completes", Sig: "close-completes/self-deadlock/" + deadlockSig(f), Msg: fmt.Sprintf("task %s: a Close call deadlocked on itself: %s\n%s", f.Task, f.Msg, trimStack(f.Stack))})
+			}
 		}
 	}
 }
@@ -233,16 +237,10 @@ func failureViolations(res *Result, panicProp, deadlockProp string) {
 // panicSig classifies a panic by its message class (not by file:line).
 func panicSig(f simrt.Failure) string {
 	c := panicClass(f)
-	// (which way the task came back: a send callback runs from the transport's drain, outside flush, on the writer
-	// goroutine - unless the transport writes on the caller's goroutine)
-	via := ""
-	if strings.Contains(f.Stack, ").onDrain") {
-		via = "/via-send-callback"
-	}
 	if fn := topRepoFunc(f.Stack); fn != "" {
-		return c + "/in-" + fn + via
+		return c + "/in-" + fn
 	}
-	return c + via
+	return c
 }
 
 // topRepoFunc names the innermost function of the repository on the panicking stack
@@ -303,10 +301,16 @@ func deadlockSig(f simrt.Failure) string {
 	if strings.Contains(f.Msg, "Once") {
 		c = "once"
 	}
-	if fn := topRepoFunc(f.Stack); fn != "" {
-		return c + "/in-" + fn
+	// (which way the task came back: a send callback runs from the transport's drain, outside flush, on the writer
+	// goroutine - unless the transport writes on the caller's goroutine)
+	via := ""
+	if strings.Contains(f.Stack, ").onDrain") {
+		via = "/via-send-callback"
 	}
-	return c
+	if fn := topRepoFunc(f.Stack); fn != "" {
+		return c + "/in-" + fn + via
+	}
+	return c + via
 }
 
 func trimStack(s string) string {
